@@ -159,7 +159,8 @@ func (e *explorer) explore(prefix []int, depth int) {
 		}
 		var key, problem string
 		if s.Out != vsched.OK {
-			key, problem = s.Out.String(), s.Out.String()+": "+s.Detail
+			// first line = class (fingerprint): outcome + canonical set of blocked operations
+			key, problem = s.Out.String(), s.Out.String()+" ["+s.Class+"]\n"+s.Detail
 		} else {
 			key, problem = e.sc.Check(s, obs)
 		}
@@ -216,7 +217,7 @@ func (e *explorer) addViolation(s *vsched.Sched, choices []int, key, problem str
 		r, ro := RunOnce(e.sc, v.Choices, -1, nil, true)
 		var k2, p2 string
 		if r.Out != vsched.OK {
-			k2, p2 = r.Out.String(), r.Out.String()+": "+r.Detail
+			k2, p2 = r.Out.String(), r.Out.String()+" ["+r.Class+"]\n"+r.Detail
 		} else {
 			k2, p2 = e.sc.Check(r, ro)
 		}
